@@ -730,8 +730,27 @@ type docSpec struct {
 // 2000 <= b < 3000: a bulk the real ingestor builds from JSON documents (single mode); its IDs are the ingestor's.
 // b >= 3000: a "hot" bulk of 500 documents that all carry the token service:hot (twenty of them pass the 10000-LID
 // background-merge threshold of a token's queue; histories use 40).
+// 4000 <= b < 5000: a "fat" bulk of 300 documents of about 6 KiB; 5000 <= b: documents whose own token is 90 bytes
+// long, all such tokens sharing an 84-byte prefix that sorts after every other k8s_pod token.
 func bulkDocs(b int) []docSpec {
 	switch {
+	case b >= 5000:
+		res := newDocs(b)
+		for j := range res {
+			res[j].tokens[1] = "k8s_pod:" + strings.Repeat("z", 84) + fmt.Sprintf("%06d", (b-5000)*10+j)
+		}
+		return res
+	case b >= 4000:
+		res := make([]docSpec, 300)
+		for j := range res {
+			res[j] = docSpec{
+				id:     seq.ID{MID: seq.MID(3_000_000 + (b-4000)*1000 + j), RID: seq.RID(b)},
+				body:   []byte(fmt.Sprintf(`{"service":"fat%d","k8s_pod":"f%d_%d","pad":"%s"}`, b, b, j, strings.Repeat(string(rune('a'+j%26)), 6000))),
+				tokens: []string{fmt.Sprintf("service:fat%d", b), fmt.Sprintf("k8s_pod:f%d_%d", b, j), "_all_:"},
+				svc:    b,
+			}
+		}
+		return res
 	case b >= 3000:
 		res := make([]docSpec, 500)
 		for j := range res {
@@ -948,6 +967,8 @@ func childMain(args []string) {
 	}
 	// observe prints what the store serves of bulk b: how many of its n documents are found by the bulk token and by
 	// their own token, how many foreign IDs those tokens lead to, how many documents are fetched byte for byte
+	served := map[seq.ID][]byte{} // documents the per-ID fetch returned byte for byte
+	var servedOrder []seq.ID
 	observe := func(b int) {
 		docs := bulkDocs(b)
 		searchErr, fetchErr := "", ""
@@ -982,7 +1003,7 @@ func childMain(args []string) {
 			}
 		}
 		switch {
-		case b >= 3000: // hot bulk: all IDs under the shared token, a sample of documents by own token and by fetch
+		case b >= 3000 && b < 4000: // hot bulk: all IDs under the shared token, a sample of documents by own token and by fetch
 			hot := ids(docs[0].tokens[0])
 			okSample := true
 			for j, d := range docs {
@@ -998,10 +1019,18 @@ func childMain(args []string) {
 			}
 			if okSample {
 				tokenHits, exact = n, n
+				if found == n {
+					for _, d := range docs {
+						if _, dup := served[d.id]; !dup {
+							servedOrder = append(servedOrder, d.id)
+						}
+						served[d.id] = d.body
+					}
+				}
 			} else {
 				wrong = 1
 			}
-		case b >= 2000: // bulk built by the real ingestor: the IDs are its own, a document is identified by its token
+		case b >= 2000 && b < 3000: // bulk built by the real ingestor: the IDs are its own, a document is identified by its token
 			bulkSet := ids(docs[0].tokens[0])
 			for _, d := range docs {
 				own := ids(d.tokens[1])
@@ -1036,11 +1065,22 @@ func childMain(args []string) {
 				} else {
 					extra += len(own)
 				}
-				count(fetch1(d.id, d.body))
+				r := fetch1(d.id, d.body)
+				count(r)
+				if r == "exact" {
+					if _, dup := served[d.id]; !dup {
+						servedOrder = append(servedOrder, d.id)
+					}
+					served[d.id] = d.body
+				}
 			}
 			for tok, svc := range map[string]int{docs[0].tokens[0]: docs[0].svc, docs[len(docs)-1].tokens[0]: docs[len(docs)-1].svc} {
 				want := map[seq.ID]bool{}
-				for _, d := range newDocs(svc) {
+				wantDocs := newDocs(svc)
+				if svc >= 4000 {
+					wantDocs = bulkDocs(svc)
+				}
+				for _, d := range wantDocs {
 					want[d.id] = true
 				}
 				for id := range ids(tok) {
@@ -1054,6 +1094,42 @@ func childMain(args []string) {
 	}
 	for _, b := range verify {
 		observe(b)
+	}
+	// one Fetch request of the store API for every document served so far (what a proxy sends after a search):
+	// the stream must deliver, position by position, the bytes the per-ID fetch delivered
+	if len(servedOrder) > 0 {
+		say("FETCHALL-BEGIN %d", len(servedOrder))
+		ok, wrong, ferr := 0, 0, ""
+		func() {
+			defer func() {
+				if r := recover(); r != nil {
+					ferr = fmt.Sprintf("panic:%v", r)
+				}
+			}()
+			req := &pstore.FetchRequest{}
+			for _, id := range servedOrder {
+				req.Ids = append(req.Ids, id.String())
+			}
+			stream, err := storeapi.VerifC01InMemoryClient(grpcH, fm).Fetch(ctx, req)
+			if err != nil {
+				ferr = "error"
+				return
+			}
+			for _, id := range servedOrder {
+				m, err := stream.Recv()
+				if err != nil {
+					ferr = "short-stream"
+					return
+				}
+				blk := disk.DocBlock(m.Data)
+				if len(blk) >= disk.DocBlockHeaderLen && bytes.Equal(blk.Payload(), served[id]) && blk.GetExt1() == uint64(id.MID) && blk.GetExt2() == uint64(id.RID) {
+					ok++
+				} else {
+					wrong++
+				}
+			}
+		}()
+		say("FETCHALL n=%d ok=%d wrong=%d %s", len(servedOrder), ok, wrong, strings.ReplaceAll(ferr, " ", "_"))
 	}
 	var stopSearch atomic.Bool
 	searching := false
@@ -1424,11 +1500,34 @@ func runScenario(s scenario) (findings []finding, tagsOut []string, obs sysObs) 
 				findings = append(findings, finding{"acked-lost/dead-context", fmt.Sprintf("%s: bulk %d was acknowledged by the Bulk handler under a cancelled/expired context and is not in the store: %s", phase, b, l)})
 				continue
 			}
+			if b >= 5000 && search == n && exact == n && wrong == 0 && extra == 0 && bytoken != n {
+				findings = append(findings, finding{"acked-lost/long-tokens", fmt.Sprintf("%s: acknowledged bulk %d is fetched and found by its bulk token but not by its documents' own (90-byte) tokens: %s", phase, b, l)})
+				continue
+			}
 			if wrong > 0 || extra > 0 {
 				findings = append(findings, finding{"acked-corrupted/" + cls, fmt.Sprintf("%s: acknowledged bulk %d is served with wrong bytes or foreign IDs: %s", phase, b, l)})
 			} else if search != n || bytoken != n || exact != n {
 				findings = append(findings, finding{"acked-lost/" + cls, fmt.Sprintf("%s: acknowledged bulk %d is not fully findable/fetchable: %s", phase, b, l)})
 			}
+		}
+		began, ended := false, false
+		for _, l := range res.lines {
+			if strings.HasPrefix(l, "FETCHALL-BEGIN") {
+				began = true
+			}
+			if strings.HasPrefix(l, "FETCHALL ") {
+				ended = true
+				var n, ok, wrong int
+				var ferr string
+				fmt.Sscanf(l, "FETCHALL n=%d ok=%d wrong=%d %s", &n, &ok, &wrong, &ferr)
+				if wrong > 0 || ferr != "" || ok != n {
+					findings = append(findings, finding{"acked-corrupted/fetch-all", fmt.Sprintf("%s: one Fetch request for the %d documents that are served one by one does not return them: %s", phase, n, l)})
+				}
+			}
+		}
+		if began && !ended {
+			findings = append(findings, finding{"dies-after-startup/fetch-all", fmt.Sprintf("%s: the store died inside one Fetch request for all served documents (exit %d): %s", phase, res.exit, lastLine(res.stderr))})
+			return false
 		}
 		if res.exit != 0 && res.exit != exitCrash {
 			findings = append(findings, finding{"dies-after-startup/" + cls, fmt.Sprintf("%s: the store died after start-up (exit %d): %s", phase, res.exit, lastLine(res.stderr))})
@@ -1475,7 +1574,14 @@ func runScenario(s scenario) (findings []finding, tagsOut []string, obs sysObs) 
 			tagsOut = append(tagsOut, "single-mode-glue")
 		}
 		for _, b := range r.ingest {
-			if b >= 3000 {
+			if b >= 5000 && special == "" {
+				special = "long-tokens"
+				tagsOut = append(tagsOut, "long-token-bulk")
+			}
+			if b >= 4000 && b < 5000 {
+				tagsOut = append(tagsOut, "fat-bulk")
+			}
+			if b >= 3000 && b < 4000 {
 				special = "hot-token"
 				tagsOut = append(tagsOut, "hot-bulk")
 			}
@@ -1640,6 +1746,12 @@ func siteOf(class string) string {
 	if strings.HasSuffix(class, "/concurrent-bulks") {
 		return "frac/active_writer.go:Write"
 	}
+	if strings.HasSuffix(class, "/fetch-all") {
+		return "storeapi/docs_stream.go:batchLoader"
+	}
+	if strings.HasSuffix(class, "/long-tokens") {
+		return "frac/token/table_entry.go:Pack"
+	}
 	if strings.HasSuffix(class, "/single-mode-glue") {
 		return "storeapi/client.go:Bulk"
 	}
@@ -1687,6 +1799,11 @@ func oracleCrashRestart(o vh.Opts, rng *vh.RNG, rep *vh.Report, replayOps []stri
 			scenario{[]round{{ingest: []int{3, 4, 1004}, crash: 5, point: 5, k: 35}, {ingest: []int{1003}, crash: -1}}},
 			scenario{[]round{{ingest: []int{6, 1006}, crash: -1, seal: true}, {ingest: []int{7, 1007}, crash: -1}}},
 			scenario{[]round{{ingest: []int{2, 5}, crash: -1}, {ingest: []int{1002}, crash: -1, seal: true}, {ingest: []int{8}, crash: -1}}},
+			// > 1000 documents of ~6 KiB fetched in one request after a crash and restarts
+			scenario{[]round{{ingest: hotRange(4001, 4), crash: 1, point: 5, k: 40}, {ingest: []int{2}, crash: -1}}},
+			// tokens of 90 bytes sharing an 84-byte prefix: sealed, restarted, searched by own token
+			scenario{[]round{{ingest: []int{1, 5001, 5002}, crash: -1, seal: true}, {ingest: []int{5003}, crash: -1}, {crash: -1}}},
+			scenario{[]round{{ingest: []int{5004}, crash: 5005, point: 5, k: 50}, {ingest: []int{5006, 2}, crash: -1, seal: true}, {ingest: []int{3}, crash: -1}}},
 			// single mode: the real ingestor + in-memory client with parked index workers; then seal / restart
 			scenario{[]round{{ingest: []int{1}, crash: -1, glue: [2]int{2001, 2002}, seal: true}, {ingest: []int{2}, crash: -1}}},
 			scenario{[]round{{crash: -1, glue: [2]int{2003, 2004}}, {ingest: []int{3}, crash: -1, glue: [2]int{2005, 2006}, seal: true}}},
@@ -1727,7 +1844,11 @@ func oracleCrashRestart(o vh.Opts, rng *vh.RNG, rep *vh.Report, replayOps []stri
 			for r, n := 0, rng.Range(2, 4); r < n; r++ {
 				rd := round{crash: -1}
 				for j, m := 0, rng.Intn(3); j < m; j++ {
-					rd.ingest = append(rd.ingest, next)
+					if rng.Chance(1, 5) {
+						rd.ingest = append(rd.ingest, 5000+next) // long own tokens
+					} else {
+						rd.ingest = append(rd.ingest, next)
+					}
 					next++
 				}
 				if rng.Chance(1, 4) {
@@ -1735,7 +1856,9 @@ func oracleCrashRestart(o vh.Opts, rng *vh.RNG, rep *vh.Report, replayOps []stri
 					next += 2
 				}
 				if len(rd.ingest) > 0 && rng.Chance(1, 3) {
-					rd.ingest = append(rd.ingest, 1000+rd.ingest[rng.Intn(len(rd.ingest))])
+					if base := rd.ingest[rng.Intn(len(rd.ingest))]; base < 1000 {
+						rd.ingest = append(rd.ingest, 1000+base)
+					}
 				}
 				rd.seal = rng.Chance(1, 6)
 				if rng.Chance(1, 8) {
